@@ -278,6 +278,34 @@ def producers(ctx, runs, seed):
     log(f"[T] concurrent producers: {n}/{len(pr)} runs linearizable ({forced} ordered add/delete pairs, {overlap} overlapping)")
 
 
+def budget_runs(ctx):
+    """segments cut by the MEMORY BUDGET in the middle of `run` batches (large documents)"""
+    hs = []
+    for variant, (nb, per, pad, threads) in enumerate([(24, 60, 1500, 1), (10, 150, 700, 2)]):
+        ops, nid = [], 1
+        for b in range(nb):
+            batch = []
+            for _ in range(per):
+                batch.append({"k": "add", "id": nid, "t": "abc"[nid % 3], "v": nid % 7, "pad": pad})
+                nid += 1
+            if b % 5 == 4:
+                batch.append({"k": "del", "t": "abc"[b % 3]})
+            ops.append({"op": "run", "ops": batch})
+            if b % 8 == 7:
+                ops.append({"op": "commit"})
+        ops.append({"op": "commit"})
+        hs.append({"cfg": {"threads": threads, "flush_after": 0, "merge": "none"}, "tag": f"budget{variant}", "ops": ops})
+    hp = ctx.path("budget_hist.ndjson")
+    vlib.write_ndjson(hp, hs)
+    tp = ctx.path("budget_trace.ndjson")
+    vlib.run_bin("core_driver", ["replay", "--in", hp, "--out", tp, "--no-storage"], timeout=600)
+    ev = vlib.read_ndjson(tp)
+    cuts = sum(1 for e in ev if e.get("ev") == "hook" and e.get("name") == "segment_finalized")
+    n = validate_runs(ctx, ev, "budget")
+    ctx.cov["memory_budget_runs"] = {"runs": len(hs), "segments_cut": cuts, "accepted": n}
+    log(f"[T] large batches cut by the memory budget: {cuts} segments, {n}/{len(hs)} runs accepted")
+
+
 def known_finding_runs(ctx):
     """dedicated small runs that confirm the recorded findings still reproduce"""
     tp = ctx.path("kf_trace.ndjson")
@@ -311,6 +339,7 @@ def run(ctx):
     binding_selftest(ctx, ev2)
     impl_traces(ctx, 60 if ctx.quick else 600, 25, ctx.seed + 3000)
     producers(ctx, 40 if ctx.quick else 500, ctx.seed + 4000)
+    budget_runs(ctx)
     runs = vlib.split_runs(api_events(ev2))
     if runs:
         ctx.sample({"kind": "random history executed on the real writer (API events)", "events": [
